@@ -8,6 +8,7 @@ followed by lint --json.
 import json
 import shutil
 
+from .. import annot
 from ..models import notice
 from ..monitors import Contracts, run_cli
 from ..util import Res, rng_for, short_hash
@@ -248,26 +249,49 @@ def run_cli_case(case, ctx, res):
             res.n += 1
             f = root / f"f{j}.py"
             hs = holders(rng, rng.randint(1, 2))
-            merge = rng.random() < 0.5
-            steps = rng.randint(1, 3) if merge else 1
-            f.write_text("print('x')\n")
+            merge = rng.random() < 0.6
+            steps = rng.randint(1, 4) if merge else 1
+            # a history: plain runs (and a header written by hand) pile up lines, the last run merges them
+            plan = [rng.random() < 0.6 for _ in range(steps - 1)] + [True] if merge else [False]
+            pool = [str(rng.randint(1990, 2030)) for _ in range(3)]
             stated = {}
+            body = "print('x')\n"
+            if merge and rng.random() < 0.35:
+                pre = []
+                for h in hs:
+                    for _p in range(rng.randint(1, 2)):
+                        y = rng.choice([None, rng.choice(pool), f"{rng.randint(1980, 1989)}-{rng.choice(pool)}", f"1985 - {rng.choice(pool)}"])
+                        line = notice.build(rng.choice(list(notice.PREFIXES)), y, h)
+                        pre.append(line)
+                        stated.setdefault(h, []).extend(notice.decompose(line)[1] or [])
+                body = "".join(f"# {x}\n" for x in pre) + "#\n# SPDX-License-Identifier: MIT\n\n" + body
+                res.cell("cli-handwritten-start")
+            f.write_text(body)
+            template = rng.choice(["custom", "nocontrib", "commented"]) if rng.random() < 0.3 else None
+            if template:
+                annot.install_templates(root, [template])
+                res.cell("cli-template:" + template)
             ok = True
             last_key = None
             for s in range(steps):
                 key = rng.choice(list(notice.PREFIXES))
                 nyears = rng.choice([0, 1, 1, 2])
-                years = [str(rng.randint(1990, 2030)) for _ in range(nyears)]  # in any order: the range is min - max
+                # in any order: the range is min - max; drawn from a small pool so that a request repeats what the header has
+                years = [rng.choice(pool) if rng.random() < 0.6 else str(rng.randint(1990, 2030)) for _ in range(nyears)]
                 if nyears == 2 and rng.random() < 0.15:
                     years.append(str(rng.randint(1990, 2030)))
+                if s and rng.random() < 0.3:
+                    key = last_key
                 args = ["--no-multiprocessing", "--root", str(root), "annotate", "--copyright-prefix", key, "-l", "MIT"]
+                if template:
+                    args += ["--template", annot.template_arg(template)]
                 for h in hs:
                     args += ["-c", h]
                 if nyears == 0:
                     args.append("--exclude-year")
                 for y in years:
                     args += ["--year", y]
-                if merge:
+                if plan[s]:
                     args.append("--merge-copyrights")
                 args.append(str(f))
                 r = run_cli(args, cwd=str(root))
@@ -276,7 +300,7 @@ def run_cli_case(case, ctx, res):
                     ok = False
                     break
                 for h in hs:
-                    stated.setdefault(h, []).extend(years)
+                    stated.setdefault(h, []).extend([min(years), max(years)] if years else [])
                 last_key = key
                 # several --year options give "min - max"; one distinct value gives that year
                 yt = None if not years else (years[0] if len(set(years)) == 1 else f"{min(years)} - {max(years)}")
@@ -288,7 +312,7 @@ def run_cli_case(case, ctx, res):
             data = json.loads(rj.stdout)
             fe = next((x for x in data["files"] if x["path"] == f.name), None)
             got = {c["value"] for c in fe["copyrights"]} if fe else set()
-            if steps == 1:
+            if steps == 1 and body == "print('x')\n":
                 if got != last_lines:
                     res.violation("cli-round-trip", f"annotate wrote / lint reads {sorted(got)}; requested {sorted(last_lines)}", args=args[4:])
             else:
@@ -296,6 +320,8 @@ def run_cli_case(case, ctx, res):
                 judge_merge(res, spec, got, sorted(got), label="cli-merge")
             res.sigs.add(short_hash("c", hs, steps, merge, last_key, case["k"], j))
             res.cell("cli-merge" if merge else "cli-plain")
+            if merge:
+                res.cell("cli-history:" + "".join("m" if x else "p" for x in plan))
         ctx.count("contract_evals_merge", con.evals.get("reuse.copyright.merge_copyright_lines", 0))
         if not attached:
             ctx.count("contract_skipped")
